@@ -308,6 +308,14 @@ func (s *dataScanner) nextContainer() error {
 	if err != nil {
 		return err
 	}
+	if len(level3Block) == 0 {
+		// no series of this container has field data(flusher writes nothing for the series bucket,
+		// not even the low key offsets), so there is no series entry to scan under this high key.
+		_, _ = s.lowKeyOffsets.Unmarshal(nil)
+		s.seriesEntries = nil
+		s.highContainerIdx++
+		return nil
+	}
 	if len(level3Block) <= 4 {
 		return fmt.Errorf("series entries length too short: %d", len(level3Block))
 	}
